@@ -920,3 +920,14 @@ func loadFieldPath(v ssa.Value) (ssa.Value, []string) {
 	}
 	return cur, path
 }
+
+// callsToName: the call instructions in fn whose callee's full name is name (e.g. "reflect.MakeSlice").
+func callsToName(fn *ssa.Function, name string) []ssa.CallInstruction {
+	var out []ssa.CallInstruction
+	instrs(fn, func(in ssa.Instruction) {
+		if c, ok := in.(ssa.CallInstruction); ok && calleeFullName(in) == name {
+			out = append(out, c)
+		}
+	})
+	return out
+}
